@@ -56,7 +56,9 @@ def run(ck):
             return self.seq.to_bytes(6, "big")
 
         def get_message_tag(self):
-            return self.tag
+            # as in secure routing, where every call draws a new random tag: the first call gives the tag of this frame, later calls others
+            self.tag_calls = getattr(self, "tag_calls", 0) + 1
+            return self.tag if self.tag_calls == 1 else bytes(b ^ (0x10 + self.tag_calls) for b in self.tag)
 
     cases = []
     loop = asyncio.new_event_loop()
